@@ -267,6 +267,11 @@ func (reg *Reg) referrerDelete(ctx context.Context, r ref.Ref, m manifest.Manife
 		return nil
 	}
 
+	// lock to avoid internal race conditions between pulling and pushing tag, shared with referrerPut
+	reg.muRefTag.Lock()
+	defer reg.muRefTag.Unlock()
+	// a concurrent put may have cached a list that still includes this manifest, drop it again once the tag is updated
+	defer reg.cacheRL.Delete(rSubject)
 	// fallback to using tag schema for refers
 	rl, err := reg.referrerListByTag(ctx, rSubject)
 	if err != nil {
